@@ -707,12 +707,19 @@ def advidx(run, fx):
     g < numGlyphs first: a dominating comparison of that very value with GlyphCache::numGlyphs(), or a dominating non-null test of
     a pointer obtained from GlyphCache::glyphSafe(g) for the same g (glyphSafe returns null exactly for g >= numGlyphs)."""
     adv = fx.one('graphite2::Font::advance')
-    body = [adv.render(e) for _, e in adv.elements() if e['k'] == 'ArraySubscriptExpr']
+    # m_advances[g] or *(m_advances + g): an access of the cache at the function's own parameter
+    pv = {p_['vid'] for p_ in adv.f['params']}
+    body = []
+    for _, e in adv.elements():
+        if e['k'] == 'ArraySubscriptExpr' or (e['k'] == 'UnaryOperator' and e.get('op') == '*'):
+            sub = list(adv.walk(e))
+            if any(x['k'] == 'MemberExpr' and (x.get('d') or '').endswith('Font::m_advances') for x in sub) and any(x['k'] == 'DeclRefExpr' and x.get('vid') in pv for x in sub):
+                body.append('m_advances')
     if not any('m_advances' in b for b in body):
         run.broken('ADVIDX', 'Font::advance', 'Font::advance no longer indexes m_advances directly (shape changed; re-confirm)', adv.where())
         return
-    guarded_inside = any(f for _, e in adv.elements() if e['k'] == 'ArraySubscriptExpr'
-                         for f in dom.facts_at(adv, e['i']) if f[1] in ('<', '<=') and 'glyphid' in f[0])
+    guarded_inside = any(f for _, e in adv.elements() if e['k'] == 'ArraySubscriptExpr' or (e['k'] == 'UnaryOperator' and e.get('op') == '*')
+                         for f in dom.facts_at(adv, e['i']) if f[1] in ('<', '<=') and any(p_['n'] in f[0] for p_ in adv.f['params']))
     sites = callers_of(fx, 'graphite2::Font::advance')
     if len(sites) < 2:
         raise AnalysisBroken('expected at least 2 call sites of Font::advance, found %d' % len(sites))
